@@ -103,6 +103,7 @@ def agent(conn):
     """Runs in a simulated client process. Keeps everything in locals."""
     held = {}
     blobs = {}
+    c = box = th = pxy = None
     while True:
         cmd = conn.recv()
         op = cmd[0]
@@ -174,8 +175,9 @@ def agent(conn):
                 tb = str(c)
             r = ('EXC', type(e).__name__, e.args, tb)
         conn.send(r)
-        r = None
-        cmd = None
+        # nothing that may reference a proxy survives the iteration (a leftover local - the container of the last 'store' - once kept
+        # a dropped proxy alive and looked like a leak in 1 of 80000 thorough runs)
+        r = cmd = c = box = th = pxy = None
     held.clear()
     gc.collect()
 
